@@ -112,7 +112,14 @@ def ob_select(cx):
         conflicts.append(c)
     npaths = cx.choose("npaths", 0, cx.p("npaths"))
     paths = [cx.str("path%d" % i, cx.choose("lp%d" % i, 0 if cx.p("allow_empty") else 1, lp), ALPHA) for i in range(npaths)]
+    for i in range(npaths):
+        for j in range(i):
+            cx.assume(paths[i] != paths[j])       # a tree maps a path to ONE file id: the same path twice adds nothing
     ids = [cx.bytes("pid%d" % i, 1, b"xyz") if cx.choose("versioned%d" % i, 0, 1) else None for i in range(npaths)]
+    for i in range(npaths):
+        for j in range(i):
+            if ids[i] is not None and ids[j] is not None:
+                cx.assume(ids[i] != ids[j])       # ... and a file id to one path
     recurse = bool(cx.choose("recurse", 0, 1))
     tree = _Tree(list(zip(paths, ids)))
     before = list(conflicts)
@@ -149,7 +156,7 @@ def ob_select(cx):
 
 def obligations(tier):
     q = tier == "quick"
-    p = dict(nconflicts=1 if q else 2, npaths=1 if q else 2, lpath=3 if q else 2, allow_empty=True)
+    p = dict(nconflicts=1 if q else 2, npaths=1, lpath=3 if q else 2, allow_empty=True)
     return [Ob("select_conflicts", ob_select, [(CF, dict(symdict=True))], p, 900 if q else 7200, 3 if q else 1,
                ["selected", "kept", "recursive"], setup=setup,
                bounds="<= %(nconflicts)d conflicts (text / path conflicts) with symbolic paths of <= %(lpath)d chars and symbolic "
